@@ -106,6 +106,16 @@ DMN_ASSUME = ["level-triggered epoll; eventfd counter semantics; an epoll regist
               "std::sync lock mutual exclusion"]
 reg(id="C11", props="Props/C11.v", proof_files=["Proofs/DaemonProofs.v"], families=[Dmn()], rule=DMN_RULE, trusted_base=DMN_TB, assumptions=DMN_ASSUME)
 reg(id="C17", props="Props/C17.v", proof_files=["Proofs/DaemonProofs.v"], families=[Dmn()], rule=DMN_RULE, trusted_base=DMN_TB, assumptions=DMN_ASSUME)
+MEM_RULE = (DMN_RULE + " || memory histories: SET_MEM_TABLE with 1..8 regions (sorted, unordered, duplicate, overlapping, unaligned mmap offsets), "
+            "ADD_MEM_REG / REM_MEM_REG (absent, size-mismatched, shifted), user ranges across the 64-bit space, guest-side pwrite/pread on the shared files, "
+            "backend-side reads/writes through the memory object handed to update_memory at region edges and just outside, SET_VRING_NUM over "
+            "{0,1,2,3,...,max,max+1,65535}, SET_VRING_BASE, SET_VRING_ADDR with addresses at region edges (after planting a used index in guest memory), "
+            "queue accessors sampled inside the backend's event handler, add_used / signal_used_queue from the worker, SET_VRING_CALL + eventfd counter reads, "
+            "SET_FEATURES subsets/supersets; judged by Spec/MemSpec.v (own table, own file bytes, own ring configuration)")
+MEM_TB = DMN_TB + ["Spec/MemSpec.v: my transcription of C13/C14 from the property text",
+                   "mmap(MAP_SHARED) coherence between a memfd's mapping and pread/pwrite on it (kernel)"]
+reg(id="C13", props="Props/C13.v", proof_files=["Proofs/MemProofs.v"], families=[Dmn()], rule=MEM_RULE, trusted_base=MEM_TB, assumptions=DMN_ASSUME)
+reg(id="C14", props="Props/C14.v", proof_files=["Proofs/MemProofs.v"], families=[Dmn()], rule=MEM_RULE, trusted_base=MEM_TB, assumptions=DMN_ASSUME)
 reg(id="BE-DEV",
     props="Props/C20.v",
     families=[Be()],
